@@ -15,6 +15,11 @@ class Hamiltonian(CallableModel):
         super().__init__(id_)
         self.joint = joint
 
+    def __call__(self, *args, **kwargs) -> Tensor:
+        # the value depends on the momentum (and mass matrix) given by the caller:
+        # it cannot be served from the cache of CallableModel
+        return self._call(*args, **kwargs)
+
     def _call(self, *args, **kwargs) -> Tensor:
         momentum: Tensor = kwargs["momentum"]
         if "inverse_mass_matrix" in kwargs:
